@@ -65,10 +65,10 @@ func gen(g *fw.GenCtx) {
 		f8 = append(f8, genF1(g, mk("F1/assign", 150, 700))...)
 	}
 	if famEnabled("F2") {
-		f8 = append(f8, genF2(g, mk("F2/builtin", 1, 3000), mk("F2/builtin-huge-count", 1, 1))...)
+		f8 = append(f8, genF2(g, mk("F2/builtin", 1, 3000), mk("F2/builtin-huge-count", 4, 4))...)
 	}
 	if famEnabled("F3") {
-		f8 = append(f8, genF3(g, mk("F3/recursion", 1, 1))...)
+		f8 = append(f8, genF3(g, mk("F3/recursion", 2, 2))...)
 	}
 	if famEnabled("F4") {
 		genF4(g, mk("F4/lifecycle", 100, 400))
@@ -77,13 +77,13 @@ func gen(g *fw.GenCtx) {
 		genF5(g, mk("F5/declarations", 30, 120))
 	}
 	if famEnabled("F6") {
-		genF6(g, mk("F6/include", 1, 1))
+		genF6(g, mk("F6/include", 2, 2))
 	}
 	if famEnabled("F7") {
 		genF7(g, mk("F7/requests", 100, 300))
 	}
 	if famEnabled("F8") {
-		genF8(g, mk("F8/tester", 1, 1), f8)
+		genF8(g, mk("F8/tester", 10, 10), f8)
 	}
 	if os.Getenv("C08_COUNTS") != "" {
 		b, _ := json.Marshal(counts)
